@@ -369,26 +369,29 @@ MODEL_OPTIONS = ("failByDrop", "utf8validateIncoming", "applyMask", "maxFramePay
                  "maskServerFrames", "maskClientFrames")
 
 
-def config_cases(role):
-    dflt = dict(CONFIG_DEFAULT["common"], **CONFIG_DEFAULT[role])
+def config_cases(role, judged=MODEL_OPTIONS, defaults=None, alt=None):
+    """the setProtocolOptions call sequences for one factory: [(label, [kwargs of call 1, kwargs of call 2, ...])]"""
+    defaults = CONFIG_DEFAULT if defaults is None else defaults
+    alt = CONFIG_ALT if alt is None else alt
+    dflt = dict(defaults.get("common", {}), **defaults.get(role, {}))
     opts = list(dflt)
     out = []
     for x in opts:
-        out.append((f"{x} alone", [{x: CONFIG_ALT[x]}]))
-        out.append((f"{x} then an empty call", [{x: CONFIG_ALT[x]}, {}]))
-        out.append((f"{x} set and set back", [{x: CONFIG_ALT[x]}, {x: dflt[x]}]))
+        out.append((f"{x} alone", [{x: alt[x]}]))
+        out.append((f"{x} then an empty call", [{x: alt[x]}, {}]))
+        out.append((f"{x} set and set back", [{x: alt[x]}, {x: dflt[x]}]))
     for x in opts:
-        if x not in MODEL_OPTIONS:
+        if x not in judged:
             continue
         for y in opts:
             if y == x:
                 continue
-            out.append((f"{x} then {y}", [{x: CONFIG_ALT[x]}, {y: CONFIG_ALT[y]}]))
-            out.append((f"{y} then {x}", [{y: CONFIG_ALT[y]}, {x: CONFIG_ALT[x]}]))
-            if y in MODEL_OPTIONS:
-                out.append((f"{x} and {y} in one call", [{x: CONFIG_ALT[x], y: CONFIG_ALT[y]}]))
-                out.append((f"{x}, then {y} set to its default", [{x: CONFIG_ALT[x]}, {y: dflt[y]}]))
-    alls = {x: CONFIG_ALT[x] for x in opts}
+            out.append((f"{x} then {y}", [{x: alt[x]}, {y: alt[y]}]))
+            out.append((f"{y} then {x}", [{y: alt[y]}, {x: alt[x]}]))
+            if y in judged:
+                out.append((f"{x} and {y} in one call", [{x: alt[x], y: alt[y]}]))
+                out.append((f"{x}, then {y} set to its default", [{x: alt[x]}, {y: dflt[y]}]))
+    alls = {x: alt[x] for x in opts}
     out.append(("all in one call", [alls]))
     out.append(("one call per option", [{x: alls[x]} for x in opts]))
     out.append(("one call per option, reversed", [{x: alls[x]} for x in reversed(opts)]))
@@ -396,8 +399,9 @@ def config_cases(role):
 
 
 def config_diff(case, res):
-    """(option, configured, effective) for every option of a configuration-plumbing run that is not what the calls say"""
-    want = dict(CONFIG_DEFAULT["common"], **CONFIG_DEFAULT[case["role"]])
+    """(expected vector, [(option, configured, effective)]) of one configuration-plumbing run; the case is self-contained:
+    config_defaults = the documented defaults of the options looked at, config_calls = the calls"""
+    want = dict(case.get("config_defaults") or dict(CONFIG_DEFAULT["common"], **CONFIG_DEFAULT[case["role"]]))
     for kw in case["config_calls"]:
         want.update(kw)
     return want, [(k, want[k], res["options"].get(k)) for k in want if res["options"].get(k) != want[k]]
@@ -406,18 +410,31 @@ def config_diff(case, res):
 def replay_config(ck, fw, case):
     res = run_cases(ck, fw, [case])[0]
     want, diff = config_diff(case, res)
+    judged = case.get("config_judged") or MODEL_OPTIONS
     print("setProtocolOptions calls:", json.dumps(case["config_calls"]), "on the", case["role"], "factory")
     print("protocol after handshake:", json.dumps(res["options"]))
-    bad = [d for d in diff if d[0] in MODEL_OPTIONS]
+    bad = [d for d in diff if d[0] in judged]
     for k, w, g in diff:
-        print(f"  {k}: configured {w!r}, effective {g!r}" + ("" if k in MODEL_OPTIONS else "   (not an option of C02/C16)"))
+        print(f"  {k}: configured {w!r}, effective {g!r}" + ("" if k in judged else "   (not an option this check judges)"))
     print("verdict:", "differs" if bad else "as configured")
     return 1 if bad else 0
 
 
-def config_plumbing(ck, fw):
-    plan = {role: config_cases(role) for role in ("server", "client")}
-    allc = [dict(role=role, config_calls=calls) for role in plan for _, calls in plan[role][1]]
+def config_plumbing(ck, fw, judged=MODEL_OPTIONS, defaults=None, alt=None, key_prefix="config", roles=("server", "client")):
+    """Configuration plumbing, reusable from any check whose cases configure a WebSocket factory.
+      ck        the vlib.Check of the calling property (violations, histogram, evaluations go there)
+      fw        "tx" | "aio"
+      judged    option names whose wrong effective value is a VIOLATION (key f"{key_prefix}/{role}/{option}");
+                any other option of `defaults` that differs is only counted (config_other_option_differs:<role>/<option>)
+      defaults  {"common": {...}, "server": {...}, "client": {...}}: option -> documented default (scalars: the driver
+                reads getattr(protocol, option) after a real opening handshake; non-scalars are compared by repr)
+      alt       option -> a legal non-default value
+    For every option: alone / then an empty call / set and set back; for every judged option x and every option y: x then y,
+    y then x (and, y judged: both in one call, x then y reset to its default); all in one call; one call per option in both
+    orders.  Replay: <module>.replay_config(ck, fw, case) (the stored case is self-contained)."""
+    plan = {role: config_cases(role, judged, defaults, alt) for role in roles}
+    allc = [dict(role=role, config_calls=calls, config_defaults=plan[role][0], config_vector=list(plan[role][0]), config_judged=list(judged))
+            for role in plan for _, calls in plan[role][1]]
     allr = run_cases(ck, fw, allc, timeout=600)
     ck.evaluations += len(allc)
     for role in plan:
@@ -430,16 +447,49 @@ def config_plumbing(ck, fw):
             got = r["options"]
             ck.bump("config_sequences")
             for k, _, _ in diff:
-                if k not in MODEL_OPTIONS:
+                if k not in judged:
                     ck.bump(f"config_other_option_differs:{role}/{k}")
                     continue
                 if (role, k) in reported:
                     continue
                 reported.add((role, k))
-                ck.violation(f"config/{role}/{k}",
+                ck.violation(f"{key_prefix}/{role}/{k}",
                              f"[{fw}] {role} factory, setProtocolOptions calls {json.dumps(calls)} ({label}), then connect and complete "
                              f"the handshake: the protocol works with {k}={got.get(k)!r}, configured is {want[k]!r}",
                              {"fw": fw, "case": c, "observed": r, "expected_options": want}, found_input=True)
+
+
+def api_stage(ck, fw, corpus):
+    """the frame-based and the streaming receive API (overrides shaped like the shipped examples, harness/impl/ws_recv.py
+    FrameApi / StreamingApi) on generated sequences with one mutated field: same deliveries, same failure, and after WE
+    failed the connection no application hook is called any more"""
+    cases, meta = [], []
+    for role in ("server", "client"):
+        rng = ck.rng(f"api/{role}")
+        seqs = [("corpus", bytes.fromhex(c["stream"])) for c in corpus if c.get("role", role) == role]
+        seqs += gen_sequences(rng, 30, masked=(role == "server"))
+        for label, stream in seqs:
+            for api in ("frame", "streaming"):
+                for fbd in (True, False):
+                    variants = [[stream]]
+                    if len(stream) > 3:
+                        a, b = sorted((rng.randint(1, len(stream) - 1), rng.randint(1, len(stream) - 1)))
+                        variants.append([stream[:a], stream[a:b], stream[b:]])
+                    for chunks in variants:
+                        cases.append(dict(BASE, role=role, fbd=fbd, api=api, chunks=[x.hex() for x in chunks]))
+                        meta.append((api, label))
+    res = run_cases(ck, fw, cases, timeout=900)
+    ck.evaluations += len(cases)
+    ck.note_cases(0, (json.dumps([fw, "api", c["api"], c["role"], c["fbd"], c["chunks"]]) for c in cases))
+    for c, r, (api, label) in zip(cases, res, meta):
+        probs = [(k, w) for k, w in ws_recv.check_against_rfc(c, r) if not any(x in k for x in KNOWN_FAMILIES)]
+        hooked = any(k.endswith("app-hooks-called-after-failure") for k, _ in probs)
+        ck.bump(f"recv-api:{api}:{'hooks-after-failure' if hooked else 'ok' if not probs else 'problem'}")
+        for key, what in probs:
+            if hooked and "msg-after-violation" in key:
+                continue          # the mixin handing on what its hooks were given: same violation, one key
+            ck.violation(f"recv-api/{api}/{key}", f"[{fw}] application uses the {api} receive API ({label}): {what}",
+                         {"fw": fw, "case": c, "observed": r, "oracle": "rfc_judge"}, found_input=True)
 
 
 KNOWN_FAMILIES = ("control-callback-after-violation", "processing-after-close-frame")
@@ -518,6 +568,7 @@ def run(ck):
         fw = fw0 + ("/nvx" if nvx else "")
         if not nvx:
             config_plumbing(ck, fw0)
+            api_stage(ck, fw0, corpus)
         cases, meta = [], []
         for role in ("server", "client"):
             seqs = [("corpus", bytes.fromhex(c["stream"])) for c in corpus if c.get("role", role) == role]
